@@ -659,14 +659,7 @@ func ruleR01j(c *Ctx) {
 	nr := newNoRet(c)
 	applyAt := -1
 	for i, st := range fd.Body.List {
-		found := false
-		ast.Inspect(st, func(x ast.Node) bool {
-			if se, ok := x.(*ast.SelectorExpr); ok && se.Sel.Name == "Apply" {
-				found = true
-			}
-			return true
-		})
-		if found {
+		if appliesDirective(c, st) {
 			applyAt = i
 			break
 		}
